@@ -22,12 +22,15 @@ RULE = (
     "contexts; for each: PyTree[L], PyTree[PyTree[L]], bare PyTree, top-level None, bindings after; "
     "every generated tree's structure is also compared with jax.tree_util; a probe set of seven trees before and "
     "after five kinds of raising checks (each in its own thread); non-trivial = the tree has a "
-    "container that itself matches L, a None/empty container, or >=2 array leaves; distinct by (tree, L, prior)"
+    "container that itself matches L, a None/empty container, or >=2 array leaves; directed: array-like registered nodes, composite leaf types, rejected trees whose early "
+    "leaf UPDATED an existing broadcastable multi-axis binding, unions written X | Y with member combinations built nowhere else, bare PyTree on values that cannot be flattened; "
+    "distinct by (tree, L, prior)"
 )
 TRUSTED = [
     "Lean 4 kernel",
     "jax.tree_util flatten order / None handling / dict key sorting (compared with the model's structure on every generated tree)",
     "the vendored typeguard for the leaf types in scope (modelled by checkL)",
+    "harness/translate_tree.py (recognisers of the statements of _MetaPyTree.__instancecheck__ / _check) and the interpreter Model/TreeDsl.lean (flatten and the structure block are primitives)",
 ]
 
 P = {"op": "print"}
